@@ -246,6 +246,47 @@ def run(tier, seed):
             if got != want:
                 corr.append({"source": t, "why": "the comment map of the model differs from the tokenizer's", "model": got, "tokenizer": want,
                              "correspondence": "print/Print.v comment_map_of vs tokenize(.., Some(map))"})
+    # ---- the parser model (parse/Parse.v, extracted) against the real parser: accept/reject and the position-free AST on the
+    # laid-out texts; and the executable conclusions of the round-trip theorems on the generated programs
+    npar = nrt = 0
+    if okm:
+        import struct
+
+        def norm_floats(dump, bits):
+            def rep(m):
+                try:
+                    v = struct.unpack(">d", struct.pack(">Q", int(m.group(1))))[0] if bits else float(m.group(1))
+                except (ValueError, struct.error, OverflowError):
+                    return m.group(0)
+                return "(Float %r)" % v
+            return re.sub(r"\(Float ([^()\s]+)\)", rep, dump)
+        ptexts = [c[0] for c in cases if not c[2].startswith("file:")][: (600 if tier == "quick" else 6000)]
+        pm = C.model("parse_src", [C.hexs(t) for t in ptexts])
+        pr2 = C.harness("ast", ptexts)
+        for t, m, r in zip(ptexts, pm, pr2):
+            if m in ("unsup", "fuel") or m.startswith("error"):
+                if m != "unsup":
+                    corr.append({"source": t, "why": "parser model: " + m[:100]})
+                continue
+            npar += 1
+            if ("ok" in r) != m.startswith("ok "):
+                corr.append({"source": t, "why": "the parser model %s the text, the real parser %s it" %
+                             ("accepts" if m.startswith("ok ") else "rejects", "accepts" if "ok" in r else "rejects"),
+                             "correspondence": "parse/Parse.v parse_src vs ucglib::parse::parse"})
+            elif "ok" in r and norm_floats(m[3:], True) != norm_floats(r["ok"], False):
+                corr.append({"source": t, "why": "the parser model and the real parser build different trees", "model": m[3:400], "parser": r["ok"][:400],
+                             "correspondence": "parse/Parse.v parse_src vs ucglib::parse::parse"})
+        rt = C.model("parse_rt", ["(2 (%s))" % " ".join(P.stmt_sexp(x) for x in p) for p, _ in model_progs])
+        for (p, t), flags in zip(model_progs, rt):
+            f = flags.split()
+            if len(f) != 6:
+                continue
+            nrt += 1
+            if f[0] == "1" and not (f[2] == f[3] == f[4] == "1"):
+                corr.append({"source": t, "why": "a program inside the round-trip theorems' side condition (prog_ok) does not round-trip in the "
+                                                 "extracted model: tokens=%s lex-of-print=%s print-lex-parse=%s" % (f[2], f[3], f[4])})
+    cov["model_parses_compared"] = npar
+    cov["model_roundtrips_checked"] = nrt
     cov["model_printer_outputs_compared"] = npp
     cov["model_comment_maps_compared"] = ncm
     cov["evaluations"] = len(cases)
